@@ -63,6 +63,37 @@ func safeLoad(s string) (r loadResult) {
 	return
 }
 
+// safeLoadFile runs the same input through config.LoadFile - the entry point of start-up and of every
+// reload (Load + resolution of relative file paths in every receiver integration).
+func safeLoadFile(dir, s string) (r loadResult) {
+	f := filepath.Join(dir, "alertmanager.yml")
+	if err := os.WriteFile(f, []byte(s), 0o600); err != nil {
+		r.err = err
+		return
+	}
+	defer func() {
+		r.pan = recover()
+		if r.pan != nil {
+			st := strings.Split(string(debug.Stack()), "\n")
+			for k := 0; k+1 < len(st); k++ {
+				if strings.Contains(st[k+1], "/repo/") && !strings.Contains(st[k], "panic") {
+					fn := strings.TrimSpace(st[k])
+					if p := strings.LastIndex(fn, "("); p > 0 {
+						fn = fn[:p]
+					}
+					if q := strings.LastIndex(fn, "/"); q >= 0 {
+						fn = fn[q+1:]
+					}
+					r.where = fn
+					break
+				}
+			}
+		}
+	}()
+	r.cfg, r.err = config.LoadFile(f)
+	return
+}
+
 // walk asserts every well-formedness clause of the statement on a configuration that Load returned.
 func walk(cfg *config.Config) []string {
 	var bad []string
@@ -335,6 +366,17 @@ func TestTotalityAndWellFormedness(t *testing.T) {
 		if back := safeLoad(res.cfg.String()); back.pan != nil {
 			w["panic"], w["where"], w["printed_form_loaded"] = fmt.Sprint(back.pan), back.where, res.cfg.String()
 			sub.Violation("config-load-panics("+back.where+")", w)
+		}
+		// the same text as a file: what start-up and every reload do
+		dir := sysrun.ScratchDir("C17", "loadfile", i)
+		defer os.RemoveAll(dir)
+		sub.Count("accepted_also_loaded_from_file", 1)
+		if lf := safeLoadFile(dir, input); lf.pan != nil {
+			w["panic"], w["where"] = fmt.Sprint(lf.pan), lf.where
+			sub.Violation("config-loadfile-panics("+lf.where+")", w)
+		} else if lf.err != nil {
+			w["error"] = lf.err.Error()
+			sub.Violation("config-loadfile-rejects-what-load-accepted", w)
 		}
 	}
 	vf.Parallel(t, n, 16, func(t *testing.T, i int) {
